@@ -20,8 +20,15 @@ import (
 	"verif/kernel"
 )
 
+// chatty tools print a notice on their standard error in every invocation
+var chatty bool
+
 func script(logFile string, body string) string {
-	return "#!/bin/sh\necho \"$0 $*\" >> " + logFile + "\n" + body + "\n"
+	noise := ""
+	if chatty {
+		noise = "echo \"notice: a new version is available\" >&2\n"
+	}
+	return "#!/bin/sh\necho \"$0 $*\" >> " + logFile + "\n" + noise + body + "\n"
 }
 
 // failBody is how a failing formatter run ends: a plain non-zero exit, death by
@@ -38,6 +45,7 @@ func failBody(mode string) string {
 var failMode = "exit"
 
 func writeWorld(dir, logFile string, w free.World) {
+	free.Unstartable = map[string]bool{}
 	os.RemoveAll(dir)
 	os.MkdirAll(dir, 0o755)
 	put := func(name, body string) {
@@ -73,6 +81,7 @@ func writeWorld(dir, logFile string, w free.World) {
 				continue // probe fails for goimports == `which` does not find it
 			}
 			if !runOK && failMode == "start" {
+				free.Unstartable[t] = true
 				// executable, found by `which`, but its interpreter does not exist
 				os.WriteFile(filepath.Join(dir, name), []byte("#!/nonexistent/interpreter\n"), 0o755)
 				continue
@@ -119,6 +128,7 @@ func main() {
 		r := kernel.NewRand(kernel.Mix(seed, "C20-tier3", i))
 		w := free.WorldOf(r.Intn(512))
 		failMode = kernel.Pick(r, []string{"exit", "exit", "signal", "start"})
+		chatty = r.Chance(1, 3)
 		writeWorld(bin, logFile, w)
 		os.Remove(logFile)
 		os.Setenv("PATH", bin)
